@@ -27,7 +27,7 @@ func init() {
 			{Name: "concurrent-api", Fn: scnC18Concurrent, Weight: 3, Group: c18Group},
 			{Name: "wait-for-ready", Fn: scnC18Wait, Weight: 1},
 		},
-		Rule: "concurrent-api: 2-3 simulated tasks issue AddReadiness / OnReady / status requests (ReadyzHandler into a response recorder) over 1-3 component names incl. re-registration, <=12 operations, " +
+		Rule: "concurrent-api: 2-3 simulated tasks issue AddReadiness / OnReady / IsReady (the poll behind WaitForReady) / status requests (ReadyzHandler into a response recorder) over 1-3 component names incl. re-registration, <=12 operations, " +
 			"interleaved at lock granularity (baseline, single-preemption sweep, PCT, random); every response must be internally consistent and the recorded invoke/return history must be linearizable " +
 			"against a map model (porcupine); wait-for-ready: registrations and ready-marks separated by fake-clock advances, one to three waiters each with its own context (started and cancelled at taped steps); WaitForReady may complete only at an instant at which the model is ready, " +
 			"yields its own context's error (and only then an error) when cancelled first, and does complete once everything has been ready for three polling intervals; " +
@@ -38,13 +38,16 @@ func init() {
 }
 
 type c18Op struct {
-	Kind string // add | ready | get
+	Kind string // add | ready | get | isready
 	Name string
 }
 
 func (o c18Op) String() string {
 	if o.Kind == "get" {
 		return "GET /readyz"
+	}
+	if o.Kind == "isready" {
+		return "IsReady()"
 	}
 	return o.Kind + "(" + o.Name + ")"
 }
@@ -135,6 +138,15 @@ var c18Model = porcupine.Model{
 		case "ready":
 			m[op.Name] = true
 			return true, encodeState(m)
+		case "isready":
+			// what WaitForReady polls: true exactly when every registered component is ready
+			want := 1
+			for _, v := range m {
+				if !v {
+					want = 0
+				}
+			}
+			return output.(c18Out).Code == want, state
 		default:
 			want := expectedStatus(m)
 			got := output.(c18Out)
@@ -188,7 +200,9 @@ func scnC18Concurrent(rc *RunCtx) {
 		mine := map[string]bool{}
 		for i := 0; i < k && total < 12; i++ {
 			total++
-			switch t.Choose(3, "kind") {
+			switch t.Choose(4, "kind") {
+			case 3:
+				ops = append(ops, c18Op{"isready", ""})
 			case 0:
 				n := names[t.Choose(len(names), "name")]
 				ops = append(ops, c18Op{"add", n})
@@ -243,6 +257,10 @@ func scnC18Concurrent(rc *RunCtx) {
 			h.AddReadiness(op.Name)
 		case "ready":
 			h.OnReady(op.Name)
+		case "isready":
+			if h.IsReady() {
+				out.Code = 1
+			}
 		default:
 			out = doStatus(h)
 		}
@@ -282,7 +300,7 @@ func scnC18Concurrent(rc *RunCtx) {
 			continue
 		}
 		for _, o := range lg.recs {
-			if o.Client != r.Client && o.Op.Kind != "get" && o.Call < r.Ret && r.Call < o.Ret {
+			if o.Client != r.Client && o.Op.Kind != "get" && o.Op.Kind != "isready" && o.Call < r.Ret && r.Call < o.Ret {
 				overlap = true
 			}
 		}
